@@ -41,6 +41,7 @@ SPECS["C20"] = {
     "parts": [
         {"engine": "progsim", "mode": "wrap", "quick": 60000, "thorough": 4000000},
         {"engine": "progsim", "mode": "pool", "quick": 5000, "thorough": 150000, "batch": 25},
+        {"engine": "progsim", "mode": "pure", "quick": 3201, "thorough": 300201},
     ],
     "cap_quick": 100, "cap_thorough": 3000,
     "rule": ("wrap: one run = one progress wrapper (pbar/PBar/prange/sbar, random option set) around an "
@@ -50,7 +51,11 @@ SPECS["C20"] = {
              "source, wrong total, failing source or abandonment was in play.  pool: one run = one pmap "
              "call on real forked workers whose completion order is fixed by a virtual-time pool model and "
              "enforced through per-item gates; non-trivial when completion order differs from submission "
-             "order.  distinct = distinct event-log digests among non-trivial runs"),
+             "order.  pure: run indices 0..200 are the exhaustive sweep isplit(num, 1..60) for num = index (the 200x60 sweep "
+             "of the quantifier); every further run samples 4-15 direct calls of quicksort / quicksort_keyvalue (ties, "
+             "two-valued and constant keys, sorted, reversed, organ-pipe, floats; arrays of five dtypes and lists, 0..400 "
+             "items), splitarray and isplit with large arguments.  distinct = distinct event-log digests among non-trivial "
+             "runs"),
     "state_measure": ("wrap: state = (entry/option class, source kind, items delivered bucket, clock regime), "
                       "transition = (state, pull|abandon); pool: state = (nproc, #chunks bucket, inversion "
                       "bucket of the completion order), transitions = distinct completion orders sigma"),
@@ -62,7 +67,8 @@ SPECS["C20"] = {
              "the wrapped iterable and the consumer (instrumented)"],
     "expect_reach": ["clock_back", "clock_jump", "clock_stall", "consumer_abandoned", "source_raised",
                      "lengthless_source", "wrong_total", "out_of_order_completion", "straggler", "exact_tie",
-                     "more_workers_than_chunks", "empty_input", "chunk_larger_than_input", "single_worker"],
+                     "more_workers_than_chunks", "empty_input", "chunk_larger_than_input", "single_worker",
+                     "isplit_sweep_row", "sort_with_ties"],
     "manifest": {
         "design_ref": "3.6",
         "level_text": ("seeded search over (a) option sets x instrumented iterables x scripted clocks (stalls, "
@@ -72,13 +78,14 @@ SPECS["C20"] = {
                        "compared with list(map(fn, items)). Sampling, not proof."),
         "level_note": ("fork start method; FIFO dispatch model of ProcessPoolExecutor (a run that does not follow it "
                        "is inconclusive, not a violation); worker death not simulated; pure clauses (sorts, isplit, "
-                       "splitarray) only sampled inside pipelines"),
+                       "splitarray) are enumerated/sampled directly (no simulation content) and inside pipelines"),
         "technique": ("deterministic simulation: simulated clock + scripted consumer/source faults; seeded schedule "
                       "search with enforced completion order on a real process pool"),
     },
     "assumptions": ["fork start method; worker death (BrokenProcessPool) not simulated",
-                    "pure clauses (sorts, isplit, splitarray) are only sampled as stages of simulated pipelines, "
-                    "the exhaustive 200x60 sweep is not performed",
+                    "the pure clauses (sorts, isplit, splitarray) have no schedule, clock or fault: they are judged as stages of "
+                    "simulated pipelines and, in the 'pure' part, by direct enumeration (isplit 0..200 x 1..60) and sampling -- "
+                    "that part is input generation, not simulation, and is labelled so",
                     "a pool run whose real dispatch does not follow the FIFO model within the watchdog is "
                     "counted as inconclusive, never as a violation"],
 }
@@ -268,35 +275,52 @@ SPECS["C15"] = {
         {"engine": "wcssim", "mode": "", "quick": 1200, "thorough": 60000},
         {"engine": "rngsim", "mode": "", "quick": 6000, "thorough": 500000},
         {"engine": "quadsim", "mode": "", "quick": 6000, "thorough": 500000},
+        {"engine": "ownsim", "mode": "", "quick": 30000, "thorough": 3000000},
     ],
     "cap_quick": 60, "cap_thorough": 1200,
-    "rule": ("the workloads of the other engines (record-file writers binary/text through every entry point and through "
+    "rule": ("(a) the workloads of the other engines (record-file writers binary/text through every entry point and through "
              "appends, Matcher construction and matching, WCS conversions, tabulated densities/covariances/means of the "
              "samplers, tabulated quadrature data) with the PRESENTATION of every array argument drawn per call: fresh "
              "contiguous copy, the other declared byte order, strided or offset view into a larger buffer whose gaps hold "
              "canaries, float32/integer where conversion is documented; after every call the whole base buffer, dtype, "
-             "strides and flags are compared with the snapshot taken before. Only this oracle is enabled. Non-trivial = a "
-             "guarded call was made; distinct = distinct event-log digests among those"),
-    "state_measure": "union of the abstract states/transitions of the contributing engines (prefixed by engine name)",
-    "real": ["esutil.sfile/recfile/io writers", "esutil.htm Matcher", "esutil.wcsutil.WCS", "esutil.random samplers",
-             "esutil.integrate (tabulated data)"],
+             "strides and flags are compared with the snapshot taken before.  (b) caller sessions (ownsim): a pool of "
+             "caller-owned arrays (coordinates, data, weights, redshifts, integer/string keys, structured tables, covariance "
+             "matrices; presentations as above plus 0-d and Fortran order) is handed to a seeded sequence of 2-10 calls into "
+             "the families the statement lists (field operations, byte-order helpers with inplace off, match/unique/rem_dup, "
+             "histogram/histogram2d/Binner with weights, wmom/wmedian/sigma_clip/get_stats/interplin/cov2cor/cor2cov, the "
+             "coordinate conversions, Cosmo distances with scalar/array bounds, HTM lookup_id/match/bincount/cylmatch) with "
+             "options drawn per call; after every call EVERY pool array is compared with its snapshot, not only the arguments "
+             "of that call.  Only the ownership oracle is enabled; an exception is an outcome.  Non-trivial = a guarded call "
+             "was made; distinct = distinct event-log digests among those"),
+    "state_measure": ("union of the abstract states/transitions of the contributing engines (prefixed by engine name); ownsim: "
+                      "state = (family, pool size capped at 4), transition = (state, call site, presentation of each argument)"),
+    "real": ["esutil.sfile/recfile/io writers", "esutil.htm Matcher/HTM", "esutil.wcsutil.WCS", "esutil.random samplers",
+             "esutil.integrate (tabulated data)", "esutil.numpy_util", "esutil.stat (Python and _chist C)", "esutil.coords",
+             "esutil.cosmology (Python and _cosmolib C)"],
     "stub": ["random source of the samplers (SimRNG)"],
     "expect_reach": ["guarded_plain", "guarded_swapped", "guarded_strided", "guarded_strided_swapped", "guarded_offset",
-                     "guarded_f4", "guarded_int"],
-    "assumptions": ["RESTRICTED SCOPE: only call sites reached inside simulated workloads are watched; the pure families "
-                    "listed in the statement (field operations, byte-order helpers, match/unique, histograms, statistics, "
-                    "coordinates, cosmology, HTM lookup/pair counting) have no history, schedule or fault for a simulator to "
-                    "vary and are NOT explored",
+                     "guarded_f4", "guarded_int", "guarded_zerod", "guarded_fortran", "array_reused_by_a_later_call",
+                     "call_raised", "family_fields", "family_byteorder", "family_match", "family_hist", "family_stat",
+                     "family_coords", "family_cosmology", "family_htm"],
+    "assumptions": ["for the pure families (field operations, byte-order helpers, match/unique, histograms, statistics, "
+                    "coordinates, cosmology, HTM lookup/pair counting) the per-call part of a session is generated inputs, not "
+                    "fault simulation: there is no schedule, clock or fault to vary; what the session adds is the monitor on the "
+                    "whole pool over a call history (DESIGN.md 3.7)",
+                    "functions documented as in-place (inplace=True variants, copy_fields' destination, copy_fields_by_name, "
+                    "atbound, the in-place sorts) are not called on pool arrays",
                     "results of writes from strided presentations are not judged (layout is outside C01-C04's quantifiers)"],
     "manifest": {
         "design_ref": "3.7",
-        "level_text": ("restricted claim: a byte/dtype/stride/flag snapshot monitor on every array handed to esutil inside the "
-                       "simulated workloads of the other engines, with the argument's presentation (byte order, strides, "
-                       "element type) drawn per call. Sampling; the pure call sites named by the property are not explored."),
-        "level_note": ("covers writers (binary/text, create/append/handle), htm Matcher/match, WCS image2sky/sky2image/"
-                       "get_jacobian, samplers, quadrature data; does not cover numpy_util, stat, coords, cosmology, HTM "
-                       "lookup/bincount call sites"),
-        "technique": ("deterministic simulation workloads reused as carriers for a caller-owned-memory monitor (snapshot "
-                      "before/after each call, canary gaps)"),
+        "level_text": ("a byte/dtype/stride/flag snapshot monitor on every array handed to esutil (a) inside the simulated "
+                       "workloads of the other engines and (b) in seeded caller sessions over the function families the "
+                       "statement lists, with the argument's presentation (byte order, strides, element type, 0-d, Fortran "
+                       "order) and the options drawn per call; the whole pool of caller arrays is re-checked after every call. "
+                       "Sampling, not proof."),
+        "level_note": ("covers writers (binary/text, create/append/handle), htm Matcher/match/HTM.match/lookup_id/bincount/"
+                       "cylmatch, WCS image2sky/sky2image/get_jacobian, samplers, quadrature data, numpy_util field/byte-order/"
+                       "match helpers, stat histogram/Binner/moments/clipping/interpolation, coords conversions, Cosmo distances; "
+                       "does not cover plotting, fits/hdfs/sqlite/oracle wrappers, json/xml tools, ArrayWriter"),
+        "technique": ("deterministic simulation workloads and seeded caller sessions used as carriers for a caller-owned-memory "
+                      "monitor (snapshot of the whole pool before/after each call, canary gaps)"),
     },
 }
